@@ -568,6 +568,37 @@ class KaniSession:
                 f.write(orig)
 
 
+def run_sessions(pairs, jobs=8):
+    """pairs: [(KaniSession, [Harness])]. Builds the sessions concurrently, then runs all
+    harnesses of all sessions in ONE pool (longest timeout first). Returns {session: [results]}."""
+    pairs = [(s, hs) for s, hs in pairs if hs]
+    errs = []
+
+    def build(s):
+        try:
+            s.build()
+        except Inconclusive as e:
+            errs.append(str(e))
+
+    with cf.ThreadPoolExecutor(max_workers=max(1, len(pairs))) as ex:
+        list(ex.map(build, [s for s, _ in pairs]))
+    if errs:
+        raise Inconclusive("; ".join(errs))
+    work = [(s, h) for s, hs in pairs for h in hs]
+    work.sort(key=lambda sh: -sh[1].timeout)
+    out = {s: [] for s, _ in pairs}
+    with cf.ThreadPoolExecutor(max_workers=jobs) as ex:
+        futs = {ex.submit(s.run_one, h): (s, h) for s, h in work}
+        for f in cf.as_completed(futs):
+            s, h = futs[f]
+            r = f.result()
+            log("  [%s] %-40s %-12s %6.1fs  checks=%d covers=%d/%d %s" % (
+                time.strftime("%H:%M:%S"), r.h.name, r.status, r.wall_s, r.checks_total,
+                r.covers_sat, r.covers_total, r.reason[:150]))
+            out[s].append(r)
+    return out
+
+
 # ---------------------------------------------------------------------------
 # Known findings
 # ---------------------------------------------------------------------------
